@@ -16,7 +16,11 @@ EXPLANATION = (
     "it is the only reader of file contents reachable from producers, file_too_large has no other caller, and the directory walkers "
     "of the scanning commands are configured only with path/configuration based filters (classified table of every WalkBuilder method); a "
     "metadata- or closure-based walker filter (max_filesize, filter_entry, …) would apply to entries below a root but never to a root "
-    "path and with another criterion than read_file, so a tree scan and the scans of its files alone would disagree."
+    "path and with another criterion than read_file, so a tree scan and the scans of its files alone would disagree. R6 no information flows "
+    "from one file's processing to another's: the only synchronised shared objects producer-reachable code touches are write-only "
+    "commutative counters (Atomic*::fetch_add) and the trace writer (a Mutex around a Write sink whose guard is only written to); any "
+    "other Mutex/RwLock/RefCell/Cell/Once* access or atomic load/store/swap in producer-reachable workspace code is a channel through "
+    "which the findings of a file can depend on which files were processed before it (memo tables, 'seen' sets, caches)."
 )
 NOT_DECIDED = (
     "That the union over files equals per-file runs as values; that the `ignore` walker visits each eligible file exactly once; "
@@ -102,6 +106,7 @@ def run(ctx):
     ctx.rule("R2", "per-file failure isolation: errors continue the walk; Quit only after a failed send")
     ctx.rule("R3", "each produced item is handed to the channel exactly once")
     ctx.rule("R5", "content-based skipping is decided by read_file alone: sole producer-side reader, sole caller of file_too_large, walkers carry only path/config filters")
+    ctx.rule("R6", "producers share no readable state: besides counters (atomic fetch_add) and the trace sink, no lock, cell or atomic load/store is reachable from a producer")
     ctx.rule("R4", "no FINDING-class panic site is reachable from producers (a worker panic hangs the process)")
     roots = producer_roots(prog)
     ctx.floor("R1", "producer impls", len(roots), 5)
@@ -261,6 +266,7 @@ def run(ctx):
     ctx.ob("R4", "FINDING-class panic sites reachable from producers", not hits, "%d" % len(hits) if not hits else "a panic on a walker thread is never joined: the consumer blocks forever: %s" % hits[:3])
 
     r5(ctx, P)
+    r6(ctx, P)
 
 
 # every method of ignore::WalkBuilder (ignore 0.4.23), classified by what the filter looks at
@@ -313,3 +319,44 @@ def r5(ctx, P):
                 tb = rf.reachable_from(ba["true"], stop=[ba["false"]])
                 ok = bool(assigns_ret_variant(rf, tb, "Err")) and not assigns_ret_variant(rf, tb, "Ok")
         ctx.ob("R5", "oversized content is rejected with Err", ok, "the true arm of file_too_large returns Err (counted as a skipped file by run_worker)", where=rf.loc())
+
+
+SYNC_API = re.compile(r"(std::sync::(poison::)?(mutex::Mutex|rwlock::RwLock)::<T>::(lock|try_lock|read|write|try_read|try_write|get_mut|into_inner)$"
+                      r"|core::cell::(RefCell|Cell|OnceCell|UnsafeCell)::<T>::\w+$|std::sync::(once_lock::OnceLock|lazy_lock::LazyLock|once::Once)::<.*>::\w+$|std::sync::once::Once::\w+$"
+                      r"|core::sync::atomic::Atomic(::<\w+>|\w+)::\w+$)")
+COMMUTATIVE = re.compile(r"core::sync::atomic::Atomic(::<\w+>|\w+)::(fetch_add|fetch_sub|new)$")
+
+
+def r6(ctx, P):
+    prog = ctx.prog
+    n = 0
+    for fid in sorted(P):
+        f = prog.fns[fid]
+        per = {}
+        for c in f.calls:
+            if c.bb not in f.live_blocks or not SYNC_API.search(c.best):
+                continue
+            n += 1
+            per[c.name] = per.get(c.name, 0) + 1
+            ordn = "" if per[c.name] == 1 else "#%d" % per[c.name]
+            if COMMUTATIVE.search(c.best):
+                used = [1 for b in f.live_blocks for st in f.blocks[b]["s"] if st[0] == "A" and st[2][0] in ("use", "bin") and any(
+                    op[0] != "k" and any(o.kind == "call" and o.ref is c for o in f.trace_operand(op)) for op in ([st[2][1]] if st[2][0] == "use" else [st[2][2], st[2][3]]))]
+                sw = [b for b in f.live_blocks if f.blocks[b]["t"][0] == "switch" and f.blocks[b]["t"][1][0] != "k" and any(o.kind == "call" and o.ref is c for o in f.trace_operand(f.blocks[b]["t"][1]))]
+                ctx.ob("R6", "counter %s in %s%s" % (c.name, fid, ordn), not sw, "commutative counter update; its previous value does not steer control flow" if not sw else
+                       "the value returned by %s is branched on: the outcome for this file depends on how many files were counted before it" % c.name, where=f.loc(c.line), nontrivial=False)
+                continue
+            # a lock is acceptable only as the trace sink: the guard is used for nothing but writing
+            sink = False
+            if c.name == "lock" and "Mutex" in c.best:
+                uses = [c2.name for c2 in f.calls if c2 is not c and c2.args and c2.args[0][0] != "k" and any(
+                    o.kind == "call" and o.ref is c for o in deep_roots(prog, f, c2.args[0], TRANSPARENT | {"deref_mut", "expect", "unwrap"}))]
+                arg_uses = [c2.name for c2 in f.calls if c2 is not c for a in c2.args[1:] if a[0] != "k" and any(
+                    o.kind == "call" and o.ref is c for o in deep_roots(prog, f, a, TRANSPARENT | {"deref_mut", "expect", "unwrap"}))]
+                sink = bool(uses) and set(uses) <= {"write_fmt", "write_all", "write", "flush", "expect", "unwrap", "deref_mut", "deref"} and set(arg_uses) <= {"call_once", "call_mut", "call"}
+                detail = "Mutex guard is only the receiver of %s (and handed to the caller's writer closure): a write-only sink" % sorted(set(uses) - {"expect", "unwrap", "deref_mut", "deref"})
+            ctx.ob("R6", "shared state access %s in %s%s" % (c.best.split("::")[-1], fid, ordn), sink,
+                   detail if sink else
+                   "producer-reachable code uses %s: state that outlives one file and is read back — the result for a file can then depend on which files a worker "
+                   "(any worker) handled before it, so a tree scan no longer equals the union of its files scanned alone and varies with --threads" % c.best, where=f.loc(c.line))
+    ctx.floor("R6", "synchronisation API calls in producer-reachable code", n, 5)
